@@ -4,6 +4,7 @@ import Mathlib.Data.List.TakeWhile
 import Mathlib.Data.List.Induction
 import Mathlib.Data.Finset.Card
 import Mathlib.Data.Finset.Range
+import Mathlib.Algebra.BigOperators.Group.List.Basic
 import Mathlib.Data.List.Perm.Basic
 import Mathlib.Algebra.Order.Field.Basic
 import Mathlib.Algebra.Order.Floor.Ring
@@ -777,6 +778,54 @@ theorem inBin_exists {n : Nat} (hn : n ≠ 0) {φ : α} (h0 : 0 ≤ φ) (h1 : φ
       refine ⟨?_, Or.inl ?_⟩
       · rw [div_le_iff₀ hnpos]; exact Nat.floor_le hx
       · rw [lt_div_iff₀ hnpos]; push_cast; exact Nat.lt_floor_add_one _
+
+theorem sum_indicator_eq_countP {β : Type} (p : β → Bool) (l : List β) :
+    (l.map fun k => if p k then 1 else 0).sum = l.countP p := by
+  induction l with
+  | nil => rfl
+  | cons a l ih =>
+    simp only [List.map_cons, List.sum_cons, List.countP_cons, ih]
+    split <;> omega
+
+theorem nodup_all_eq_singleton {β : Type} {f : List β} {k0 : β} (hn : f.Nodup) (hall : ∀ x ∈ f, x = k0)
+    (hmem : k0 ∈ f) : f.length = 1 := by
+  cases f with
+  | nil => cases hmem
+  | cons a t =>
+    cases t with
+    | nil => rfl
+    | cons b t' =>
+      exfalso
+      have ha := hall a (List.mem_cons_self ..)
+      have hb := hall b (List.mem_cons_of_mem _ (List.mem_cons_self ..))
+      have := (List.nodup_cons.mp hn).1
+      apply this
+      rw [ha, ← hb]; exact List.mem_cons_self ..
+
+/-- every observation with phase in `[0,1]` is counted in exactly one bin: the histogram adds up to the number of
+observations -/
+theorem hist_total' {n : Nat} (hn : n ≠ 0) (l : List α) (hl : ∀ φ ∈ l, 0 ≤ φ ∧ φ ≤ 1) :
+    (hist n l).sum = l.length := by
+  induction l with
+  | nil => simp [hist]
+  | cons φ l ih =>
+    have ih' := ih (fun ψ hψ => hl ψ (List.mem_cons_of_mem _ hψ))
+    obtain ⟨k0, hk0, hb0⟩ := inBin_exists hn (hl φ (List.mem_cons_self ..)).1 (hl φ (List.mem_cons_self ..)).2
+    unfold hist at ih' ⊢
+    have e : (List.range n).map (fun k => ((φ :: l).filter (inBin n k)).length) =
+        (List.range n).map (fun k => (if inBin n k φ then 1 else 0) + (l.filter (inBin n k)).length) := by
+      apply List.map_congr_left
+      intro k _
+      rw [List.filter_cons]
+      split <;> simp <;> omega
+    rw [e, List.sum_map_add, ih', sum_indicator_eq_countP, List.countP_eq_length_filter]
+    have : ((List.range n).filter (fun k => inBin n k φ)).length = 1 := by
+      apply nodup_all_eq_singleton (k0 := k0) ((List.nodup_range).filter _)
+      · intro x hx
+        obtain ⟨hx1, hx2⟩ := List.mem_filter.mp hx
+        exact inBin_unique hn (List.mem_range.mp hx1) hk0 hx2 hb0
+      · exact List.mem_filter.mpr ⟨List.mem_range.mpr hk0, hb0⟩
+    rw [this, List.length_cons]; omega
 end binsfloor
 
 end Diag
